@@ -471,10 +471,9 @@ def oracle(op, out, backend):
             return None
         _, path, zx, wx, fx, zy, wy, fy, same, ab = op
         if out == "err OverflowError":
-            # the same-tzinfo branch shifts each endpoint by its offset as a naive value: only at the range edges
-            edge = 2 * DAY
-            if min(wx, wy) < D.MIN_US + edge or max(wx, wy) > D.MAX_US - edge:
-                return None
+            # Interval.__new__ / precise_diff shift an endpoint to UTC as a naive value (finding F31 when that reading is not representable)
+            return "OverflowError: " + ("the UTC reading of an endpoint lies outside years 1..9999" if _utc_out_of_range(op)
+                                        else "both endpoints and their UTC readings are representable")
         return _check_len(e, out, path)
     if op[0] == "date":
         _, path, a, b, ab = op
@@ -495,10 +494,9 @@ def oracle(op, out, backend):
         return None
     if op[0] == "days":
         _, path, zx, wx, fx, zy, wy, fy, same, ab = op
-        if out == "err OverflowError":       # Interval.__new__'s hand offset removal at the range edges (as for "iv")
-            edge = 2 * DAY
-            if min(wx, wy) < D.MIN_US + edge or max(wx, wy) > D.MAX_US - edge:
-                return None
+        if out == "err OverflowError":       # as for "iv" (finding F31)
+            return "OverflowError: " + ("the UTC reading of an endpoint lies outside years 1..9999" if _utc_out_of_range(op)
+                                        else "both endpoints and their UTC readings are representable")
         if not out.startswith("ok "):
             return f"in_days {path}: unexpected {out}"
         d, w = (int(v) for v in out.split()[1:])
@@ -600,4 +598,16 @@ def _wall_order(op, backend, out, viol):
     return (ws > we) != (us_ > ue)
 
 
-MATCHERS = {"wall_order": _wall_order}
+def _utc_out_of_range(op):
+    _, path, zx, wx, fx, zy, wy, fy, same, ab = op
+    ux, uy = instant(zx, wx, fx), instant(zy, wy, fy)
+    return any(u is not None and not (D.MIN_US <= u <= D.MAX_US) for u in (ux, uy))
+
+
+def _utc_reading_out_of_range(op, backend, out, viol):
+    """F31: an endpoint within a day of 0001-01-01 / 9999-12-31 whose UTC reading (wall time minus offset) is not a representable
+    datetime: Interval.__new__ / precise_diff compute that reading as a naive value and raise OverflowError"""
+    return op[0] in ("iv", "days") and out == "err OverflowError" and _utc_out_of_range(op)
+
+
+MATCHERS = {"wall_order": _wall_order, "utc_reading_out_of_range": _utc_reading_out_of_range}
